@@ -31,8 +31,8 @@ var c20Forms = []c20Tok{{"1", 1}, {"-2", -2}, {"+3", 3}, {".5", .5}, {"-.25", -.
 
 // command of the structured description
 type c20Cmd struct {
-	Verb   byte        `json:"verb"` // MmLlHhVvCcSsQqTtAa, or 'z' for a sub-path join (followed by a move)
-	Groups [][]c20Num  `json:"groups"`
+	Verb   byte       `json:"verb"` // MmLlHhVvCcSsQqTtAa, or 'z' for a sub-path join (followed by a move)
+	Groups [][]c20Num `json:"groups"`
 }
 type c20Num struct {
 	S   string  `json:"s"`
